@@ -898,13 +898,57 @@ func (c *Ctx) ruleHierarchy() {
 	}
 	var ys []y
 	var ysRaw []*ssa.Call
-	allInstrs(it, func(b *ssa.BasicBlock, ins ssa.Instruction) {
-		if call, ok := ins.(*ssa.Call); ok && call.Call.Value == yield {
-			ys = append(ys, y{P.Desc(call.Call.Args[0]), P.BlockGuards(b), call.Pos()})
-			ysRaw = append(ysRaw, call)
-		}
-	})
-	sort.Slice(ys, func(i, j int) bool { return ys[i].pos < ys[j].pos })
+	// the yields of the iterator literal, and those of a helper the literal hands its yield function to
+	// (`yieldUnknownCode(code, yield)`): read in the context of that call, under its conditions
+	var collect func(f *ssa.Function, yv ssa.Value, base []Lit, pins pinMap, at token.Pos, depth int)
+	collect = func(f *ssa.Function, yv ssa.Value, base []Lit, pins pinMap, at token.Pos, depth int) {
+		allInstrs(f, func(b *ssa.BasicBlock, ins ssa.Instruction) {
+			call, ok := ins.(*ssa.Call)
+			if !ok {
+				return
+			}
+			if call.Call.Value == yv {
+				var d string
+				P.PinnedAll(pins, func() { d = P.Desc(call.Call.Args[0]) })
+				pos := call.Pos()
+				if at != token.NoPos {
+					pos = at
+				}
+				ys = append(ys, y{d, dedupLits(append(append([]Lit{}, base...), P.BlockGuards(b)...)), pos})
+				ysRaw = append(ysRaw, call)
+				return
+			}
+			// `slices.Values(list)(yield)`: every element of list is yielded, in order, until yield says stop
+			if inner, isCall := call.Call.Value.(*ssa.Call); isCall && len(call.Call.Args) == 1 && call.Call.Args[0] == yv && len(inner.Call.Args) == 1 {
+				if P.CallTo(inner, "slices.Values") != nil {
+					var d string
+					P.PinnedAll(pins, func() { d = "elem(" + P.Desc(inner.Call.Args[0]) + ")" })
+					pos := call.Pos()
+					if at != token.NoPos {
+						pos = at
+					}
+					ys = append(ys, y{d, dedupLits(append(append([]Lit{}, base...), P.BlockGuards(b)...)), pos})
+					ysRaw = append(ysRaw, call)
+					return
+				}
+			}
+			callee := call.Call.StaticCallee()
+			if callee == nil || depth > 1 || !P.IsProductFunc(callee) || P.isAnchor(callee) || len(callee.Blocks) == 0 {
+				return
+			}
+			for ai, a := range call.Call.Args {
+				if a == yv && ai < len(callee.Params) {
+					np := pinMap{callee: call}
+					for k, v := range pins {
+						np[k] = v
+					}
+					collect(callee, callee.Params[ai], dedupLits(append(append([]Lit{}, base...), P.BlockGuards(b)...)), np, call.Pos(), depth+1)
+				}
+			}
+		})
+	}
+	collect(it, yield, nil, pinMap{}, token.NoPos, 0)
+	sort.SliceStable(ys, func(i, j int) bool { return ys[i].pos < ys[j].pos })
 	if len(ys) == 3 {
 		// the two cases may be written in either order: put the yields into the order ALL, code, list element
 		codeD := P.Desc(fn.Params[0])
@@ -997,29 +1041,38 @@ func (c *Ctx) ruleHierarchy() {
 		}
 		return false
 	}
-	allInstrs(builder, func(b *ssa.BasicBlock, ins ssa.Instruction) {
-		mu, ok := ins.(*ssa.MapUpdate)
-		if !ok {
-			return
+	// (the entries may be written by helpers the builder hands its map to)
+	var builderFns []*ssa.Function
+	for _, f := range P.StaticClosure(builder) {
+		if f == builder || (P.IsProductFunc(f) && !P.isAnchor(f) && funcPkgPath(f) == modulePath+"/src/codes") {
+			builderFns = append(builderFns, f)
 		}
-		elems := c.sliceLitDescs(mu.Value)
-		kd := P.Desc(mu.Key)
-		if os.Getenv("GGV_DEBUG_HIER") != "" {
-			fmt.Println("HIER kd=", kd, "elems=", elems)
-		}
-		switch len(elems) {
-		case 2:
-			// result[category] = {"ALL", category}
-			if elems[0] == `const("ALL")` && elems[1] == kd && isCatKey(kd) {
-				catOK = true
+	}
+	for _, bf := range builderFns {
+		allInstrs(bf, func(b *ssa.BasicBlock, ins ssa.Instruction) {
+			mu, ok := ins.(*ssa.MapUpdate)
+			if !ok || typeStr(mu.Map.Type()) != "map[string][]string" {
+				return
 			}
-		case 3:
-			// result[code.ID] = {"ALL", category, code.ID}
-			if elems[0] == `const("ALL")` && isCatKey(elems[1]) && elems[2] == kd && strings.Contains(kd, "codes.Code.ID") {
-				codeOK = true
+			elems := c.sliceLitDescs(mu.Value)
+			kd := P.Desc(mu.Key)
+			if os.Getenv("GGV_DEBUG_HIER") != "" {
+				fmt.Println("HIER kd=", kd, "elems=", elems)
 			}
-		}
-	})
+			switch len(elems) {
+			case 2:
+				// result[category] = {"ALL", category}
+				if elems[0] == `const("ALL")` && elems[1] == kd && isCatKey(kd) {
+					catOK = true
+				}
+			case 3:
+				// result[code.ID] = {"ALL", category, code.ID}
+				if elems[0] == `const("ALL")` && isCatKey(elems[1]) && elems[2] == kd && strings.Contains(kd, "codes.Code.ID") {
+					codeOK = true
+				}
+			}
+		})
+	}
 	c.check(catOK, "HIER/TABLE", "codes.codeToCheckList#category", P.Pos(builder.Pos()), "category -> [ALL, category] for every key of CodesByCategory", "the reverse table does not map every category to [\"ALL\", category]")
 	c.check(codeOK, "HIER/TABLE", "codes.codeToCheckList#code", P.Pos(builder.Pos()), "code -> [ALL, category, code] for every code of every category", "the reverse table does not map every code to [\"ALL\", its category, code]")
 }
